@@ -446,8 +446,9 @@ class EOperation(ETypedElement):
             parameters.insert(0, 'self')
         norm_name = self.normalized_name()
         parameters = ', '.join(parameters)
+        message = f'Method {norm_name}({parameters}) is not yet implemented'
         return f"""def {norm_name}({parameters}):
-        raise NotImplementedError('Method {norm_name}({parameters}) is not yet implemented')
+        raise NotImplementedError({message!r})
         """ # noqa
 
 
@@ -458,8 +459,14 @@ class EParameter(ETypedElement):
     def to_code(self):
         if self.required:
             return f"{self.name}"
-        default_value = getattr(self.eType, 'default_value', None)
-        return f"{self.name}={default_value}"
+        default_value = self.default_value()
+        if not isinstance(default_value, (bool, int, float, str)):
+            # not a literal: __create_fun binds the actual default
+            default_value = None
+        return f"{self.name}={default_value!r}"
+
+    def default_value(self):
+        return getattr(self.eType, 'default_value', None)
 
 
 class ETypeParameter(ENamedElement):
@@ -928,7 +935,12 @@ class EClass(EClassifier):
         # exec(code, namespace)
         code = compile_restricted(eoperation.to_code(), '<inline>', 'exec')
         exec(code, safe_builtins, namespace)
-        setattr(self.python_class, name, namespace[name])
+        fun = namespace[name]
+        if fun.__defaults__:
+            fun.__defaults__ = tuple(x.default_value()
+                                     for x in eoperation.eParameters
+                                     if not x.required)
+        setattr(self.python_class, name, fun)
 
     def _update_supertypes(self):
         new_supers = self.__compute_supertypes()
